@@ -117,7 +117,11 @@ def r2_consumers(ctx, chk, rule="C13.2"):
                     seen_v = t_[1][3][2]
                     key_ = t_[1][2]
                     kept_ = t_[2] if t_[1][1] == "notin" else t_[3]
+                    dropped_ = t_[3] if t_[1][1] == "notin" else t_[2]
+                    acc_v_ = ("acc", lid, v)
                     su = L.update.get(seen_v)
+                    if dropped_ != acc_v_ or not (kept_[0] == "cat" and kept_[1] == acc_v_):
+                        su = None           # not "an element whose key was seen before is left out"
                     grows = su is not None and mentions(su, lambda x: x[0] == "cat" and x[1] == ("acc", lid, seen_v) and x[2][0] in ("list", "set") and x[2][1] == (key_,))
                     whole_elem = key_ == ("elem", lid) or (kept_[0] == "cat" and kept_[2][0] == "list" and kept_[2][1] == (key_,))
                     if grows and not whole_elem and mentions(key_, lambda x: x == ("elem", lid)):
@@ -129,6 +133,14 @@ def r2_consumers(ctx, chk, rule="C13.2"):
                         not (y[0] == "acc") and not (is_const(y) and y[1] == 0) for y in x[1])
                 band_c = [x for x in _subterms_of(t_) if x[0] == "cmp" and x[1] in ("<", "<=") and (_shifted_acc(x[2]) or _shifted_acc(x[3]))
                           and not (mentions(x[2], lambda y: y[0] == "acc") and mentions(x[3], lambda y: y[0] == "acc"))]
+                # `if key in seen: repeated.add(key)` with `seen` collecting every key: the SET of keys that occur more than once - the same
+                # set in whatever order the elements come
+                if t_[0] == "ite" and t_[1][0] == "cmp" and t_[1][1] == "in" and t_[1][3][0] == "acc" and t_[1][3][1] == lid and t_[3] == ("acc", lid, v) \
+                        and L.init.get(v) in (("set", ()), ("call", "set", (), ())) and t_[2] == simp(("cat", ("acc", lid, v), ("list", (t_[1][2],)))):
+                    seen_u = L.update.get(t_[1][3][2])
+                    if seen_u is not None and mentions(seen_u, lambda x: x[0] == "cat" and x[1] == t_[1][3] and x[2][0] in ("list", "set") and x[2][1] == (t_[1][2],)):
+                        chk.ok(rule, where, "%s.%s: `%s` is the set of keys that occur more than once (order-insensitive)" % (cls, m, v))
+                        continue
                 if firstwins is None and band_c and t_[0] == "ite":
                     chk.violation(rule, where, "%s.%s decides ties of `%s` by `%s`, a comparison within a tolerance of the running optimum: that relation is not transitive, so which "
                                   "successors are listed together depends on the order in which the transitions are written" % (cls, m, v, show(band_c[0])[:100]),
